@@ -337,6 +337,9 @@ impl World {
         let idx = self.dgrams_sent;
         self.dgrams_sent += 1;
         self.stats.inc("datagrams_sent");
+        if data.len() == self.wc.cfg.max_packet_size.get() {
+            self.stats.inc("datagrams_filled_to_max_packet_size");
+        }
         let n = self.wc.n;
         if to.addr == 0 || to.addr as usize > n {
             self.stats.inc("datagrams_to_unknown_address");
